@@ -125,7 +125,7 @@ def main(argv=None):
                 jobs.append((idx, o["qf"], o["full"], o["trivial"], timeout_ms, True, both and o["expect"] == "unsat"))
                 meta.append(dict(task=g.get("task", "?"), name=o["name"], kind=o["kind"], func=o["func"], line=o["line"],
                                  expect=o["expect"], decisions=o["decisions"], note=o["note"],
-                                 size=len(o["full"] or "")))
+                                 size=len((o["full"][1] if isinstance(o["full"], tuple) else o["full"]) or "")))
         from pyvc.solve import solve_one
         results = pool.map(solve_one, jobs, chunksize=1) if jobs else []
     for r in results:
